@@ -486,7 +486,10 @@ pub fn record_offsets(output: &str) {
         if tries % 6 == 0 { table.push((0, 2, -1_000_000)); }
         let base_pose = Isometry3::new(nalgebra::Vector3::new(0.0, 0.0, -0.4), nalgebra::Vector3::new(0.0, 0.0, 0.3));
         // the scene is laid out for the candidate vector
-        let body = scene::build(&scene, kin, &cand, &base_pose, safety_from(&table_json(&table), defaults.0, defaults.1, CheckMode::FirstCollisionOnly));
+        // (the mode the body is configured with: mostly first-collision, sometimes all collisions, one in nine no checking
+        //  at all - then nothing collides and exactly the candidates within the limits are offered)
+        let mode = match tries % 9 { 4 => CheckMode::NoCheck, 1 | 7 => CheckMode::AllCollsions, _ => CheckMode::FirstCollisionOnly };
+        let body = scene::build(&scene, kin, &cand, &base_pose, safety_from(&table_json(&table), defaults.0, defaults.1, mode));
         // every second case asks through the robot with shape (kinematics + body), the others ask the body directly
         // (the robot with shape holds its kinematics the way its constructors build it: Tool(Base(robot)), both
         //  transforms the identity here, so the bodies stay where the scene put them)
@@ -513,7 +516,7 @@ pub fn record_offsets(output: &str) {
                     vecs.push(v);
                 }
             }
-            let mut e = json!({"ev": "offsets", "pool": pool, "cands": cands, "from": au6(&lim_from), "to": au6(&lim_to), "class": class, "moved_joint": j, "case": made});
+            let mut e = json!({"ev": "offsets", "pool": pool, "cands": cands, "from": au6(&lim_from), "to": au6(&lim_to), "class": class, "moved_joint": j, "case": made, "mode": format!("{:?}", body.safety.mode)});
             match offered {
                 None => { e["outcome"] = json!("panic"); e["offered"] = json!([]); }
                 Some(o) => {
